@@ -109,10 +109,28 @@ class Decl:
         # split interfaces over base / derived class
         cut = r.randint(1, n_if - 1) if levels == 2 else n_if
         base_ifs, derived_ifs = decl[:cut], decl[cut:]
+        self.redeclared = None
+        if levels == 2 and r.random() < 0.3:
+            # the derived class declares an interface NAME of its base class again, with other members / signatures: the
+            # most derived declaration of a name is the object's interface of that name
+            name0, old_members = base_ifs[0]
+            members = {}
+            for mname in r.sample(MEMBERS, r.randint(1, 3)):
+                members[mname] = (r.choice(SIGS_IN), r.choice(SIGS_OUT))
+            if old_members and r.random() < 0.7:
+                m0 = sorted(old_members)[0]
+                members[m0] = (r.choice([s_ for s_ in SIGS_IN if s_ != old_members[m0][0]]), r.choice(SIGS_OUT))
+            derived_ifs = derived_ifs + [(name0, members)]
+            decl = decl + [(name0, members)]
+            self.redeclared = name0
         style = {}        # member -> 'dbus_' | 'deco'
         all_members = sorted({m for _, ms in decl for m in ms})
         for m in all_members:
             style[m] = r.choice(['dbus_', 'deco', 'deco_named'])
+            if self.redeclared and any(n_ == self.redeclared and m in ms_ for n_, ms_ in decl):
+                # members of a name that is declared twice are bound per (interface, member) by decorators only: a
+                # dbus_<member> function would serve both declarations and leave "the implementation bound to ..." open
+                style[m] = 'deco'
         self.style = style
 
         moved = []          # decorated bindings of base-class interfaces that live in the derived class
@@ -142,7 +160,7 @@ class Decl:
                                     self.impl[(n2, m)] = (impl_id, wants)
                             continue
                     if style[m] in ('deco', 'deco_named'):
-                        fname = 'impl_%s_%s' % (n.replace('.', '_'), m)
+                        fname = 'impl_%s_%s%s' % (n.replace('.', '_'), m, '_r' if (self.redeclared == n and base is not O.DBusObject) else '')
                         if style[m] == 'deco_named' and ('dbus_' + m) not in attrs and not hasattr(base, 'dbus_' + m):
                             # the decorated function for the first declaring interface is itself called dbus_<member>
                             fname = 'dbus_' + m
@@ -164,7 +182,7 @@ class Decl:
                 attrs['__len__'] = lambda self_: 0
             return type(cname, (base,), attrs)
 
-        split_bindings = bool(derived_ifs) and r.random() < 0.5
+        split_bindings = bool(derived_ifs) and r.random() < 0.5 and not self.redeclared
         Base = build_class('Base%s%s' % (case_id, cname_suffix), O.DBusObject, base_ifs)
         cls = Base
         if derived_ifs:
@@ -316,6 +334,12 @@ def drive(ctx, seed, idx, r, d, peer, case):
             # choose what to call
             kind = r.choice(['right', 'right', 'right', 'wrong-path', 'wrong-iface', 'wrong-member', 'wrong-sig', 'no-iface'])
             n, ms = r.choice(d.ifaces)
+            if d.redeclared:
+                # which declaration a call WITHOUT interface header meets when one name is declared twice is not stated;
+                # calls to such objects name their interface, and "the interface n" is its most derived declaration
+                if kind == 'no-iface':
+                    kind = 'right'
+                ms = next(ms_ for n_, ms_ in d.ifaces if n_ == n)
             member = r.choice(sorted(ms))
             sig_in = ms[member][0]
             path, iface = d.path, n
@@ -355,7 +379,7 @@ def drive(ctx, seed, idx, r, d, peer, case):
                 impl = d.impl.get((o[1], o[2]))
                 if impl is None:
                     continue
-                sig_out = dict(d.ifaces)[o[1]][o[2]][1]
+                sig_out = next(ms_ for n_, ms_ in d.ifaces if n_ == o[1])[o[2]][1]     # the most derived declaration
                 if impl[0] in plan and plan_sig.get(impl[0]) != sig_out:
                     ambiguous = True      # one dbus_<name> serving interfaces with different return signatures
                 plan_sig[impl[0]] = sig_out
